@@ -253,6 +253,9 @@ def coerce(v, ty):
         return Val(ty, sort(ty).constructor(0)(z3.IntVal(0), z3.K(z3.IntSort(), z3.Const("dflt_" + _sanitize(ty.t.name), sort(ty.t)))))
     if isinstance(ty, TSet) and isinstance(v.ty, TSet) and v.ty.k == NONE:
         return empty_set(ty)
+    if isinstance(ty, TAbs) and isinstance(v.ty, TFun) and v.py and v.py[0] == "bound":
+        # a bound method stored as an opaque callback: one abstract constant per (class, method) name
+        return Val(ty, z3.Const("callback_%s_%s" % (_sanitize(str(v.py[2])), _sanitize(str(v.py[3]))), sort(ty)))
     raise Unsupported("cannot coerce %s to %s" % (v.ty, ty))
 
 
